@@ -25,16 +25,16 @@ Print Assumptions C20_unsupported_iff_outside_set.
 Theorem C20_unsupported_iff_directive :
   forall (o : oracle) (v : value) (s : str) (f : format) (c : N) (k : kind),
     is_container v = false -> is_nan_value v = false -> parse_format s None None CfNone = ROk f ->
-    (format_value o v (FStr s) = OErr (EUnsupported c k)
+    (format_value o v (FStr s) = Some (OErr (EUnsupported c k))
      <-> (supported (kind_of v) (f_char f) = false /\ c = f_char f /\ k = kind_of v)).
 Proof. exact unsupported_iff_directive. Qed.
 Print Assumptions C20_unsupported_iff_directive.
 
 Example C20_unsupported_ex :
-  format_value (mkOracle [] [] [] [] [] [] []) (VInt 5) (FStr (lit "%-8q")) = OErr (EUnsupported 113 KdInteger)
-  /\ format_value (mkOracle [] [] [] [] [] [] []) (VInt 255) (FStr (lit "%#010x")) = OText (lit "0x00000000ff")
-  /\ format_value (mkOracle [] [] [] [] [] [] []) (VStr (lit "ab")) (FStr (lit "%-5s|")) = OErr EInvalidSpec
-  /\ format_value (mkOracle [] [] [] [] [] [] []) (VStr (lit "ab")) (FStr (lit "%-5p")) = OText (lit "'ab' ").
+  format_value (mkOracle [] [] [] [] [] [] []) (VInt 5) (FStr (lit "%-8q")) = Some (OErr (EUnsupported 113 KdInteger))
+  /\ format_value (mkOracle [] [] [] [] [] [] []) (VInt 255) (FStr (lit "%#010x")) = Some (OText (lit "0x00000000ff"))
+  /\ format_value (mkOracle [] [] [] [] [] [] []) (VStr (lit "ab")) (FStr (lit "%-5s|")) = Some (OErr EInvalidSpec)
+  /\ format_value (mkOracle [] [] [] [] [] [] []) (VStr (lit "ab")) (FStr (lit "%-5p")) = Some (OText (lit "'ab' ")).
 Proof. vm_compute. repeat split. Qed.
 
 (* --- radix renderings convert back ----------------------------------------------------------- *)
